@@ -75,6 +75,15 @@ def viewDef (m : Mode) : TypeDef → TypeDef
 
 def viewOf (m : Mode) (defs : List TypeDef) : List TypeDef := defs.map (viewDef m)
 
+/-- the schema object the generator was given, as coercion sees it: `build_client_schema` restores
+    every `default_value` from the introspection result, but an input field the endpoint did not
+    return (deprecated, not asked for) is not there -/
+def visibleDef (m : Mode) : TypeDef → TypeDef
+  | .input n fs => .input n (InputGen.visibleFields m fs)
+  | d => d
+
+def visibleDefs (m : Mode) (defs : List TypeDef) : List TypeDef := defs.map (visibleDef m)
+
 /-- the imported `input_types` module generated from a schema built by `m` -/
 def mkEnvSrc (m : Mode) (cfg : Cfg) (defs : List TypeDef) (acc : String → J → Bool) (lax : PydInput.Lax) : PydInput.Env :=
   PydInput.mkEnv cfg (viewOf m defs) acc lax
